@@ -270,7 +270,7 @@ def gen_obstacle(rng, oid, net, role=None, horizon=None, shape_kinds=("rect", "c
         occ = []
         x, y, th = pos[0], pos[1], ori
         for k in range(1, horizon + 1):
-            th += dth
+            th = math.atan2(math.sin(th + dth), math.cos(th + dth))  # keep the angle a valid orientation
             x += v * math.cos(th)
             y += v * math.sin(th)
             occ.append({"t": t0 + k, "shape": _place(gen_shape(rng, ("rect", "poly")), [x, y], th)})
